@@ -237,8 +237,13 @@ def valid(case):
 
 
 def module_source(desc, logpath):
-    lines = ['import unittest',
+    lines = ['import functools', 'import unittest',
              'from tdda.referencetest import ReferenceTestCase, tag', '',
+             'def wrapped(fn):',
+             '    @functools.wraps(fn)',
+             '    def inner(self, *a, **kw):',
+             '        return fn(self, *a, **kw)',
+             '    return inner', '',
              'LOG = %r' % logpath, '',
              'def log(self, name):',
              '    with open(LOG, "a") as f:',
@@ -248,9 +253,16 @@ def module_source(desc, logpath):
             lines.append('@tag')
         base = c['base'] or c['kind']
         lines.append('class %s(%s):' % (c['name'], base))
-        for m in c['methods']:
+        for (i, m) in enumerate(c['methods']):
+            # every third method goes through a functools.wraps decorator,
+            # with @tag (if any) above it; every third with @tag beneath it
+            layout = (i + len(c['name'])) % 3
+            if layout == 2:
+                lines.append('    @wrapped')
             if m in c['tagged_methods']:
                 lines.append('    @tag')
+            if layout == 1:
+                lines.append('    @wrapped')
             lines.append('    def %s(self):' % m)
             lines.append('        log(self, %r)' % m)
             lines.append('')
